@@ -874,3 +874,197 @@ func ruleLastBatchCache(e *Engine, r *Report) {
 		"cache and store agree on the replica's last batch",
 		"the last batch of a save can be written without replacing the cached last batch: the next save merges with a stale batch", w...)
 }
+
+// ruleSingleNodeQuorum (C03, C06, C18): the shortcut predicate that lets a
+// replica elect itself / confirm a ReadIndex without asking anybody is true
+// only when the quorum size (voters and witnesses) is 1.
+func ruleSingleNodeQuorum(e *Engine, r *Report) {
+	sq := r.need(raftT + "isSingleNodeQuorum")
+	q := r.need(raftT + "quorum")
+	if sq == nil || q == nil {
+		return
+	}
+	r.returnsOnlyUnder("GD-single-quorum", fname(sq), sq, 0, true, nil,
+		reqCmp("quorum() == 1", "==", e.callV(q), intConstV(1)))
+}
+
+// ruleChunkFileSync (C15, C16): every received snapshot file is fsynced
+// when its last chunk has been written: in Chunk.save, from the edge on
+// which the chunk is the last chunk of its file (or of the snapshot), every
+// path to a successful return passes the file's sync.
+func ruleChunkFileSync(e *Engine, r *Report) {
+	save := r.need("(*internal/transport.Chunk).save")
+	syncF := r.need("(*internal/transport.chunkFile).sync")
+	if save == nil || syncF == nil {
+		return
+	}
+	isSync := func(in ssa.Instruction) bool {
+		c, ok := in.(*ssa.Call)
+		return ok && e.CallsTo(c, syncF)
+	}
+	for _, name := range []string{"IsLastFileChunk", "IsLastChunk"} {
+		m := e.Func("(*raftpb.Chunk)." + name)
+		if m == nil {
+			m = e.Func("(raftpb.Chunk)." + name)
+		}
+		if m == nil {
+			r.undecided("ANCHOR", "raftpb.Chunk."+name, "anchored method no longer resolves")
+			continue
+		}
+		n := 0
+		for _, b := range save.Blocks {
+			if len(b.Instrs) == 0 {
+				continue
+			}
+			ifi, ok := b.Instrs[len(b.Instrs)-1].(*ssa.If)
+			if !ok || !e.callV(m)(ifi.Cond) {
+				continue
+			}
+			n++
+			ts := b.Succs[0]
+			// search from the first instruction of the true successor (findPath starts after `from`)
+			res := e.findPath(save, ts.Instrs[0], func(in ssa.Instruction) bool { return e.isSuccessReturn(in) }, isSync, nil)
+			if isSync(ts.Instrs[0]) {
+				res.Found = false
+			} else if e.isSuccessReturn(ts.Instrs[0]) {
+				res.Found = true
+			}
+			r.check(!res.Found, "MPT-chunk-file-sync", "Chunk.save syncs the file when "+name+"() #"+itoa(n), e.ipos(ifi),
+				"a completely received file is made durable before the chunk is acknowledged",
+				"Chunk.save can return success for the last chunk of a file without fsyncing the file: after a power loss the recorded snapshot's file is empty or partial")
+		}
+		r.check(n > 0, "MPT-chunk-file-sync", "Chunk.save tests "+name+"() to decide the fsync", e.pos(save.Pos()),
+			"the sync decision covers this case", "Chunk.save no longer tests "+name+"(): the corresponding file is acknowledged without being fsynced")
+	}
+}
+
+// ruleSnapshotStatusReported (C17, C08): once a snapshot stream job was
+// started, the raft node is told how it ended on every path (success or
+// failure): the leader keeps the remote paused in the snapshot state until
+// the status report arrives, heartbeat responses do not un-pause it.
+func ruleSnapshotStatusReported(e *Engine, r *Report) {
+	ps := r.need("(*internal/transport.Transport).processSnapshot")
+	notify := r.need("(*internal/transport.Transport).sendSnapshotNotification")
+	if ps == nil || notify == nil {
+		return
+	}
+	isNotify := func(in ssa.Instruction) bool {
+		c, ok := in.(*ssa.Call)
+		return ok && e.CallsTo(c, notify)
+	}
+	n := 0
+	fns := append([]*ssa.Function{ps}, ps.AnonFuncs...)
+	hasNotify := false
+	for _, fn := range fns {
+		if len(e.SitesIn(fn, notify)) == 0 {
+			continue
+		}
+		hasNotify = true
+		n++
+		res := e.findPath(fn, nil, isReturn, isNotify, nil)
+		var w []string
+		for _, x := range res.Witness {
+			w = append(w, e.ipos(x))
+		}
+		r.check(!res.Found, "MPT-snapshot-status", "every exit of "+fname(fn)+" reports the snapshot status", e.pos(fn.Pos()),
+			"the outcome of the stream job always reaches the raft node",
+			"a path through the snapshot stream job ends without sendSnapshotNotification: the leader's remote stays paused in the snapshot state", w...)
+		// a failure is reported as a failure: on the error edge of each fallible step the rejected flag is not the constant false
+		for _, s := range e.SitesIn(fn, notify) {
+			args := s.Common().Args
+			rej := args[len(args)-1]
+			if cb, isC := isConstBool(rej); isC && !cb {
+				// constant "not rejected": must not be reachable with a pending error
+				g := e.reachableFromErrEdgeWithin(fn, s)
+				r.check(!g, "MPT-snapshot-status", "success report in "+fname(fn)+" is not reachable from an error edge", e.ipos(s),
+					"success is reported only when no step failed", "sendSnapshotNotification(.., false) is reachable after a failed step")
+			}
+		}
+	}
+	r.check(hasNotify, "MPT-snapshot-status", "processSnapshot reports the status", e.pos(ps.Pos()), "status notifications exist", "processSnapshot no longer reports the snapshot status")
+	r.floor("MPT-snapshot-status", n, 1)
+}
+
+// reachableFromErrEdgeWithin: is call site s reachable from the non-nil edge
+// of an `err != nil` test in fn?
+func (e *Engine) reachableFromErrEdgeWithin(fn *ssa.Function, s ssa.CallInstruction) bool {
+	for _, b := range fn.Blocks {
+		if len(b.Instrs) == 0 {
+			continue
+		}
+		ifi, ok := b.Instrs[len(b.Instrs)-1].(*ssa.If)
+		if !ok {
+			continue
+		}
+		bo, ok := ifi.Cond.(*ssa.BinOp)
+		if !ok || !(isNilConst(bo.X) || isNilConst(bo.Y)) {
+			continue
+		}
+		other := bo.X
+		if isNilConst(bo.X) {
+			other = bo.Y
+		}
+		if !isErrorType(other.Type()) {
+			continue
+		}
+		errSucc := b.Succs[0]
+		if bo.Op.String() == "==" {
+			errSucc = b.Succs[1]
+		}
+		if len(errSucc.Instrs) == 0 {
+			continue
+		}
+		if errSucc.Instrs[0] == s.(ssa.Instruction) {
+			return true
+		}
+		res := e.findPath(fn, errSucc.Instrs[0], func(in ssa.Instruction) bool { return in == s.(ssa.Instruction) }, nil, nil)
+		if res.Found {
+			return true
+		}
+	}
+	return false
+}
+
+// ruleShrunkPredicate (C08, C20): whether a recorded snapshot file is a
+// shrunk (payload-free) one is answered "no" without looking at the file
+// only for state machines that are not on-disk and for witness/dummy
+// snapshots; every other "no" comes from the file check. A shrunk file
+// taken for a full one is fed to RecoverFromSnapshot and wipes the state.
+func ruleShrunkPredicate(e *Engine, r *Report) {
+	fn := r.need("(*internal/rsm.StateMachine).isShrunkSnapshot")
+	onDisk := r.need("(*internal/rsm.StateMachine).OnDiskStateMachine")
+	witness := r.needField("raftpb", "Snapshot", "Witness")
+	dummy := r.needField("raftpb", "Snapshot", "Dummy")
+	shrunkM := e.Method("internal/rsm", "ISnapshotter", "Shrunk")
+	if fn == nil || onDisk == nil || witness == nil || dummy == nil || shrunkM == nil {
+		if shrunkM == nil {
+			r.undecided("ANCHOR", "rsm.ISnapshotter.Shrunk", "anchored method no longer resolves")
+		}
+		return
+	}
+	fromFileCheck := func(v ssa.Value) bool {
+		return e.dependsOn(v, func(x ssa.Value) bool { return e.methodCallV(shrunkM)(x) }, 0)
+	}
+	n := 0
+	forEachInstr(fn, func(in ssa.Instruction) {
+		ret, ok := in.(*ssa.Return)
+		if !ok || !e.isSuccessReturn(in) {
+			return
+		}
+		v := retOperand(ret, 0)
+		if cb, isC := isConstBool(v); isC && cb {
+			return
+		}
+		n++
+		if fromFileCheck(v) {
+			r.ok("GD-shrunk-pred", "isShrunkSnapshot return #"+itoa(n)+" is the file check's answer", e.ipos(in), "answer comes from ISnapshotter.Shrunk")
+			return
+		}
+		r.guard("GD-shrunk-pred", "isShrunkSnapshot answers \"not shrunk\" without the file check #"+itoa(n), in,
+			reqAny("not an on-disk state machine, or a witness/dummy snapshot",
+				reqBool("", e.callV(onDisk), false),
+				reqBool("", fieldV(witness), true),
+				reqBool("", fieldV(dummy), true)))
+	})
+	r.floor("GD-shrunk-pred", n, 2)
+}
